@@ -366,3 +366,80 @@ package profile
 //@     invariant 0 <= $i && $i <= len(s.Label[key])
 //@     invariant forall j int :: 0 <= j && j < $i ==> s.Label[key][j] != value
 //@ func Sample.DiffBaseSample inline
+
+// ---- C03: merge identity keys and header combination ----
+
+// A function's identity is exactly (name, system name, file name, start line).
+//@ func Function.key arith bv
+//@   requires f != nil
+//@   ensures faithful: result.startLine == f.StartLine && result.name == f.Name && result.systemName == f.SystemName && result.fileName == f.Filename
+//@ lemma function_key_injective arith bv
+//@   vars f1 *Function, f2 *Function
+//@   assume f1 != nil && f2 != nil
+//@   call k1 := Function.key(f1)
+//@   call k2 := Function.key(f2)
+//@   conclude injective: k1 == k2 <==> (f1.Name == f2.Name && f1.SystemName == f2.SystemName && f1.Filename == f2.Filename && f1.StartLine == f2.StartLine)
+
+// A mapping's identity: size rounded up to 4 KiB, file offset, and build id (or file name when there is no build id).
+//@ spec func roundup4k(x uint64) uint64 = (x + 0xfff) - ((x + 0xfff) % 0x1000)
+//@ func Mapping.key arith bv
+//@   requires m != nil
+//@   ensures faithful: result.size == roundup4k(m.Limit - m.Start) && result.offset == m.Offset
+//@       && result.buildIDOrFile == ite(m.BuildID != "", m.BuildID, m.File)
+//@ lemma mapping_key_injective arith bv
+//@   vars m1 *Mapping, m2 *Mapping
+//@   assume m1 != nil && m2 != nil
+//@   call k1 := Mapping.key(m1)
+//@   call k2 := Mapping.key(m2)
+//@   conclude injective: k1 == k2 <==> (roundup4k(m1.Limit - m1.Start) == roundup4k(m2.Limit - m2.Start) && m1.Offset == m2.Offset
+//@       && ite(m1.BuildID != "", m1.BuildID, m1.File) == ite(m2.BuildID != "", m2.BuildID, m2.File))
+
+//@ func equalValueType arith bv
+//@   requires st1 != nil && st2 != nil
+//@   ensures result <==> (st1.Type == st2.Type && st1.Unit == st2.Unit)
+//@ spec func sametypes(p *Profile, pb *Profile) bool = p.PeriodType.Type == pb.PeriodType.Type && p.PeriodType.Unit == pb.PeriodType.Unit
+//@     && len(p.SampleType) == len(pb.SampleType)
+//@     && forall i int :: 0 <= i && i < len(p.SampleType) ==> p.SampleType[i].Type == pb.SampleType[i].Type && p.SampleType[i].Unit == pb.SampleType[i].Unit
+//@ spec func typesok(p *Profile) bool = p != nil && p.PeriodType != nil && forall i int :: 0 <= i && i < len(p.SampleType) ==> p.SampleType[i] != nil
+//@ func Profile.compatible arith bv
+//@   requires typesok(p) && typesok(pb)
+//@   ensures result == nil <==> sametypes(p, pb)
+//@   loop 1
+//@     invariant 0 <= $i && $i <= len(p.SampleType) && len(p.SampleType) == len(pb.SampleType)
+//@     invariant forall j int :: 0 <= j && j < $i ==> p.SampleType[j].Type == pb.SampleType[j].Type && p.SampleType[j].Unit == pb.SampleType[j].Unit
+
+//@ spec func sumdur(srcs []*Profile, k int) int64 = ite(k <= 0, 0, sumdur(srcs, k - 1) + srcs[k-1].DurationNanos) decreases k
+
+// combineHeaders: period is the maximum, collection time the earliest non-zero one, duration the sum,
+// frame expressions / default sample type / doc URL come from the first profile that has them,
+// and the result shares no ValueType object with any input.
+//@ func combineHeaders arith bv
+//@   requires len(srcs) >= 1 && forall i int :: 0 <= i && i < len(srcs) ==> typesok(srcs[i]) && srcs[i].Period >= 0 && srcs[i].TimeNanos >= 0
+//@   ensures compat: result1 == nil <==> forall i int :: 1 <= i && i < len(srcs) ==> sametypes(srcs[0], srcs[i])
+//@   ensures fresh: result1 == nil ==> result0 != nil && fresh(result0)
+//@   ensures period_max: result1 == nil ==> (forall i int :: 0 <= i && i < len(srcs) ==> result0.Period >= srcs[i].Period)
+//@       && (exists i int :: 0 <= i && i < len(srcs) && result0.Period == srcs[i].Period)
+//@   ensures time_earliest: result1 == nil ==> (forall i int :: 0 <= i && i < len(srcs) && srcs[i].TimeNanos != 0 ==> result0.TimeNanos != 0 && result0.TimeNanos <= srcs[i].TimeNanos)
+//@       && (result0.TimeNanos != 0 ==> exists i int :: 0 <= i && i < len(srcs) && result0.TimeNanos == srcs[i].TimeNanos)
+//@   ensures duration_sum: result1 == nil ==> result0.DurationNanos == sumdur(srcs, len(srcs))
+//@   ensures frames_first: result1 == nil ==> result0.DropFrames == srcs[0].DropFrames && result0.KeepFrames == srcs[0].KeepFrames
+//@   ensures types: result1 == nil ==> len(result0.SampleType) == len(srcs[0].SampleType) && result0.PeriodType != nil
+//@       && result0.PeriodType.Type == srcs[0].PeriodType.Type && result0.PeriodType.Unit == srcs[0].PeriodType.Unit
+//@       && forall i int :: 0 <= i && i < len(result0.SampleType) ==> result0.SampleType[i] != nil
+//@            && result0.SampleType[i].Type == srcs[0].SampleType[i].Type && result0.SampleType[i].Unit == srcs[0].SampleType[i].Unit
+//@   ensures noalias: result1 == nil ==> (forall j int :: 0 <= j && j < len(srcs) ==> result0.PeriodType != srcs[j].PeriodType)
+//@       && forall i int, j int, k int :: 0 <= i && i < len(result0.SampleType) && 0 <= j && j < len(srcs) && 0 <= k && k < len(srcs[j].SampleType)
+//@            ==> result0.SampleType[i] != srcs[j].SampleType[k]
+//@   loop 1
+//@     invariant 0 <= $i && $i <= len(srcs) - 1
+//@     invariant forall j int :: 1 <= j && j < $i + 1 ==> sametypes(srcs[0], srcs[j])
+//@   loop 2
+//@     invariant 0 <= $i && $i <= len(srcs)
+//@     invariant forall j int :: 1 <= j && j < len(srcs) ==> sametypes(srcs[0], srcs[j])
+//@     invariant period >= 0 && (forall j int :: 0 <= j && j < $i ==> period >= srcs[j].Period)
+//@     invariant ($i == 0 && period == 0) || exists j int :: 0 <= j && j < $i && period == srcs[j].Period
+//@     invariant timeNanos >= 0 && (forall j int :: 0 <= j && j < $i && srcs[j].TimeNanos != 0 ==> timeNanos != 0 && timeNanos <= srcs[j].TimeNanos)
+//@     invariant timeNanos != 0 ==> exists j int :: 0 <= j && j < $i && timeNanos == srcs[j].TimeNanos
+//@     invariant durationNanos == sumdur(srcs, $i)
+//@   loop 3
+//@     invariant 0 <= $i && $i <= len(s.Comments)
